@@ -263,6 +263,15 @@ class _ExprInline(ast.NodeTransformer):
         if n.keywords or len(n.args) != len(params) or any(isinstance(a, ast.Starred) for a in n.args):
             return n
         mapping = dict(zip(params, n.args))
+        # an argument that is more than a name may be substituted only where it is used once (no duplicated evaluation)
+        uses = {}
+        for x in ast.walk(expr):
+            if isinstance(x, ast.Name) and x.id in mapping:
+                uses[x.id] = uses.get(x.id, 0) + 1
+        for p_, a_ in mapping.items():
+            simple = isinstance(a_, (ast.Name, ast.Constant)) or (isinstance(a_, ast.Attribute) and isinstance(a_.value, ast.Name))
+            if not simple and uses.get(p_, 0) > 1:
+                return n
         new = _Subst(mapping, {}).visit(ast.parse(ast.unparse(expr), mode="eval").body)
         ast.copy_location(new, n)
         for x in ast.walk(new):
